@@ -501,27 +501,33 @@ def _alias_unpacks(g, p_name):
 
 
 def _return_slots(repo):
-    """Positions (name_pos, meta_pos) of the tuple returned by _handle_deprecation, or None."""
+    """Positions (name_pos, entry_pos) of the pair returned by _handle_deprecation, or None.
+
+    An element is the entry if it denotes the entry parameter or the result of a `self._dict[...]` lookup.
+    """
     f = repo.try_func(OD, f'{CLS}._handle_deprecation')
-    if f is None:
+    if f is None or len(f.node.args.args) != 3:
         return None
-    a = f.node.args.args
-    if len(a) != 3:
-        return None
-    pn, pm = a[1].arg, a[2].arg
+    pn, pm = f.node.args.args[1].arg, f.node.args.args[2].arg
+    g = cfgm.build(f)
+    B = _Bind(g, cfgm.ReachingDefs(g), [], None, entry_params={pm: pn})
     slots = None
-    for st in astx.walk_stmts(f.node.body):
-        if isinstance(st, ast.Return):
-            v = st.value
-            if not (isinstance(v, ast.Tuple) and len(v.elts) == 2 and all(isinstance(x, ast.Name) for x in v.elts)):
-                return None
-            ids = [x.id for x in v.elts]
-            if sorted(ids) != sorted([pn, pm]):
-                return None
-            cur = (ids.index(pn), ids.index(pm))
-            if slots is not None and slots != cur:
-                return None
-            slots = cur
+    for R in g.nodes:
+        if R.kind != 'stmt' or not isinstance(R.ast, ast.Return):
+            continue
+        v = R.ast.value
+        if not (isinstance(v, ast.Tuple) and len(v.elts) == 2):
+            return None
+        is_entry = []
+        for x in v.elts:
+            et = B.entry_tokens(x, R)
+            is_entry.append(et is not None and all(t[0] in ('param', 'def') for t in et))
+        if is_entry.count(True) != 1:
+            return None
+        cur = (is_entry.index(False), is_entry.index(True))
+        if slots is not None and slots != cur:
+            return 'conflict'
+        slots = cur
     return slots
 
 
@@ -533,9 +539,10 @@ class _Bind:
     ('alias-entry-only', ...) never compare equal to a good one.  None = not recognised.
     """
 
-    def __init__(self, g, rd, unpacks, slots):
+    def __init__(self, g, rd, unpacks, slots, entry_params=None):
         self.g, self.rd, self.slots = g, rd, slots
         self.unpack = {n: names for n, names, _ in unpacks}
+        self.entry_params = entry_params or {}   # parameter holding the entry of the option named by another one
 
     @staticmethod
     def def_value(d, var):
@@ -565,7 +572,11 @@ class _Bind:
         out = set()
         for d in ds:
             if d is self.g.entry:
-                out.add(('not-an-entry', e.id) if as_entry else ('param', e.id))
+                if as_entry:
+                    out.add(('param', self.entry_params[e.id]) if e.id in self.entry_params
+                            else ('not-an-entry', e.id))
+                else:
+                    out.add(('param', e.id))
                 continue
             if d in self.unpack:
                 names = self.unpack[d]
@@ -589,11 +600,11 @@ class _Bind:
                         return None
                 continue
             v = self.def_value(d, e.id)
-            if v is None:
-                return None
-            sub = self._walk(v, d, as_entry, depth + 1)
+            sub = self._walk(v, d, as_entry, depth + 1) if v is not None else None
             if sub is None:
-                return None
+                if as_entry:
+                    return None
+                sub = {('def', d.id)}     # a name computed locally: its own version
             out |= sub
         return frozenset(out)
 
@@ -632,6 +643,8 @@ class _Bind:
                 parts.append(f'the name passed in (`{t[1]}`)')
             elif t[0] == 'alias':
                 parts.append('the alias target returned by _handle_deprecation')
+            elif t[0] == 'def':
+                parts.append(f'the name computed by `{astx.src(self.g.nodes[t[1]].ast, 60)}`')
             else:
                 parts.append(t[0].replace('-', ' '))
         return ' or '.join(parts)
@@ -667,6 +680,11 @@ def guard(repo, out):
     unpacks = _alias_unpacks(g, p_name)
     unpack_nodes = {n for n, _, _ in unpacks}
     slots = _return_slots(repo)
+    if slots == 'conflict':
+        fh_ = repo.func(OD, f'{CLS}._handle_deprecation')
+        out.bad(fh_, fh_.node, 'the return statements of _handle_deprecation disagree on the order of (name, entry): '
+                'the caller unpacks an entry as the option name on some paths', key='alias-pair')
+        slots = None
     B = _Bind(g, rd, unpacks, slots)
 
     def is_sf_call(dv, d):
@@ -693,7 +711,6 @@ def guard(repo, out):
                     return 'value'
                 if any(t[0] == 'entry-as-name' for t in toks):
                     return 'entry'
-                return None
         e2, at2 = _deref(rd, at, e)
         if isinstance(e2, ast.Constant):
             return 'const'
@@ -908,7 +925,7 @@ def guard(repo, out):
         if ok8 and first is not None:
             out.ok(fn, first.ast, 'every store writes the entry of exactly the option version that was validated')
 
-    # (7) _handle_deprecation returns the alias name together with the alias entry
+    # (7) _handle_deprecation returns the alias name together with the entry looked up under that very name
     fh = repo.func(OD, f'{CLS}._handle_deprecation')
     gh = cfgm.build(fh)
     rdh = cfgm.ReachingDefs(gh)
@@ -918,43 +935,42 @@ def guard(repo, out):
         out.unsure(fh, fh.node, 'return shape not recognised')
         return
     hn, hm = ah[1].arg, ah[2].arg
+    Bh = _Bind(gh, rdh, [], None, entry_params={hm: hn})
     rets = [n for n in gh.nodes if n.kind == 'stmt' and isinstance(n.ast, ast.Return)]
-    ndefs = set().union(*[rdh.defs(r, hn) for r in rets]) - {gh.entry}
-    mdefs = set().union(*[rdh.defs(r, hm) for r in rets]) - {gh.entry}
-    keys_n, keys_m, shape_ok = set(), set(), True
-    for d in ndefs:
-        if d.kind == 'stmt' and isinstance(d.ast, ast.Assign) and isinstance(d.ast.value, ast.Name):
-            keys_n.add(d.ast.value.id)
-        else:
-            shape_ok = False
-    for d in mdefs:
-        v = d.ast.value if d.kind == 'stmt' and isinstance(d.ast, ast.Assign) else None
-        if isinstance(v, ast.Subscript) and astx.path(v.value) == 'self._dict' and isinstance(v.slice, ast.Name):
-            keys_m.add(v.slice.id)
-        else:
-            shape_ok = False
-    if not shape_ok:
-        out.unsure(fh, fh.node, 'rebinding of name/entry not recognised')
-    elif not ndefs and not mdefs:
-        out.bad(fh, fh.node, 'the alias is never resolved: name and entry are returned unchanged',
-                key='alias-pair')
-    elif keys_n != keys_m or len(keys_n) != 1:
-        out.bad(fh, (list(mdefs) or list(ndefs))[0].ast,
-                f'name is rebound from {sorted(keys_n)} but the entry is looked up with {sorted(keys_m)}',
-                key='alias-pair')
-    else:
-        w = None
-        for d in mdefs:
-            w = w or _npath(gh, hstops, gh.normal_succ(d), rets, avoid=ndefs)
-        for d in ndefs:
-            if _npath(gh, hstops, [gh.entry], [d], avoid=mdefs) is not None:
-                w = w or _npath(gh, hstops, gh.normal_succ(d), rets, avoid=mdefs)
-        if w is not None:
-            out.bad(fh, w[0].ast, 'name and entry of the alias are not replaced together: ' + gh.fmt_path(w),
-                    key='alias-pair')
-        else:
-            # the alias key must come from slot 1 of meta['deprecation'] = [msg, alias, show]
-            out.ok(fh, list(mdefs)[0].ast, 'alias name and alias entry are rebound on the same paths')
+    resolved, ok7 = False, True
+    for R in rets:
+        n_e, m_e = R.ast.value.elts[slots[0]], R.ast.value.elts[slots[1]]
+        nt, et = Bh.name_tokens(n_e, R), Bh.entry_tokens(m_e, R)
+        if nt is None or et is None:
+            out.unsure(fh, R.ast, 'returned name/entry not recognised')
+            ok7 = False
+            break
+        if nt != et:
+            out.bad(fh, R.ast, f'returns {Bh.describe(nt)} together with the entry of {Bh.describe(et)}: '
+                    'the caller validates against one option and stores into another', key='alias-pair')
+            ok7 = False
+            break
+        if nt != {('param', hn)}:
+            resolved = True
+        # when the parameters themselves are rebound, both must be rebound on the same paths
+        if isinstance(n_e, ast.Name) and isinstance(m_e, ast.Name) and (n_e.id, m_e.id) == (hn, hm):
+            ndefs = rdh.defs(R, hn) - {gh.entry}
+            mdefs = rdh.defs(R, hm) - {gh.entry}
+            w = None
+            for d in mdefs:
+                w = w or _npath(gh, hstops, gh.normal_succ(d), [R], avoid=ndefs)
+            for d in ndefs:
+                if _npath(gh, hstops, [gh.entry], [d], avoid=mdefs) is not None:
+                    w = w or _npath(gh, hstops, gh.normal_succ(d), [R], avoid=mdefs)
+            if w is not None:
+                out.bad(fh, w[0].ast, 'name and entry of the alias are not replaced together: ' + gh.fmt_path(w),
+                        key='alias-pair')
+                ok7 = False
+                break
+    if ok7 and not resolved:
+        out.bad(fh, fh.node, 'the alias is never resolved: name and entry are returned unchanged', key='alias-pair')
+    elif ok7:
+        out.ok(fh, rets[-1].ast, f'every return ({len(rets)}) pairs a name with the entry looked up under that name')
 
 
 # --------------------------------------------------------------------------- C27.declare
@@ -1213,10 +1229,16 @@ class _Temp:
             return self.path(astx.receiver(e))
         return None
 
-    def temp_value(self, e, key, val):
-        """True if e denotes the requested temporary value of option `key`: the items() value var or kwargs[key]."""
+    def temp_value(self, e, key, val, at=None):
+        """True if e denotes the requested temporary value of option `key`: the items() value var or kwargs[key]
+        (possibly through a local that holds it)."""
         if isinstance(e, ast.Name):
-            return val is not None and e.id == val
+            if val is not None and e.id == val:
+                return True
+            if at is None:
+                return False
+            e2, at2 = _deref(self.rd, at, e)
+            return e2 is not e and self.temp_value(e2, key, val, at2)
         return isinstance(e, ast.Subscript) and isinstance(e.value, ast.Name) and e.value.id == self.kw and \
             isinstance(e.slice, ast.Name) and e.slice.id == key
 
@@ -1364,7 +1386,7 @@ def temporary(repo, out):
 
     # ---- (1) setup discipline
     ok1 = True
-    good_sets = [n for n in sets if T.temp_value(n.ast.value, k1, v1)]
+    good_sets = [n for n in sets if T.temp_value(n.ast.value, k1, v1, n)]
     v1s = v1 or f'{T.kw}[{k1}]'
     if not sets or len(good_sets) != len(sets):
         x = ([n for n in sets if n not in good_sets] or [None])[0]
@@ -1386,7 +1408,7 @@ def temporary(repo, out):
             e, at = _deref(rd, n, c.args[0])
             if T.self_item(e, k1):
                 read_nodes.append(at)
-            elif T.temp_value(e, k1, v1):
+            elif T.temp_value(e, k1, v1, at):
                 out.bad(fn, n.ast, f'the temporary value `{v1s}` is pushed instead of the current value '
                         f'self[{k1}]', key='save-before-set')
                 ok1 = False
@@ -1631,7 +1653,7 @@ def _check_restore_loop(T, out, L2, k2, cache, k1, v1):
                 out.bad(fn, n.ast, 'the saved value is read but not removed from the stack: an enclosing context '
                         'on the same option later restores this inner value', key='restore-lifo')
             ok4 = False
-        elif T.temp_value(e, k2, v1) or isinstance(e, ast.Subscript) and astx.path(e.value) == T.kw:
+        elif T.temp_value(e, k2, v1, at) or isinstance(e, ast.Subscript) and astx.path(e.value) == T.kw:
             out.bad(fn, n.ast, 'assigns the temporary value again instead of the saved one', key='restore-source')
             ok4 = False
         else:
@@ -2171,4 +2193,81 @@ selftest(
          "        new = value\n        if meta['set_function'] is not None:\n            new = meta['set_function'](meta, value)\n",
          also=[(OD, "        meta['val'] = value\n", "        meta['val'] = new\n")]),
     Twin('twin-validated-copy', OD, _VAL, "        given = value\n        self._assert_valid(name, given)\n"),
+)
+
+
+# ---- second robustness round (benign/C27_b2_2, C27_b2_3)
+_TMP_RENAMED = ("        changed = []\n"
+                "        try:\n"
+                "            for opt_name in kwargs:\n"
+                "                tmp_val = kwargs[opt_name]\n"
+                "                prev_val = self[opt_name]\n"
+                "                if opt_name not in self._context_cache:\n"
+                "                    self._context_cache[opt_name] = []\n"
+                "                self._context_cache[opt_name].append(prev_val)\n"
+                "                changed.append(opt_name)\n"
+                "                self[opt_name] = tmp_val\n"
+                "            yield\n"
+                "        finally:\n"
+                "            for opt_name in reversed(changed):\n"
+                "                saved_vals = self._context_cache[opt_name]\n"
+                "                self[opt_name] = saved_vals.pop()\n"
+                "                if not saved_vals:\n"
+                "                    self._context_cache.pop(opt_name)\n")
+_HD = ("        msg, alias, show_warn = meta['deprecation']\n"
+       "        if show_warn:\n"
+       "            warn_deprecation(msg)\n"
+       "            meta['deprecation'][2] = False  # turn off future warnings for this variable\n"
+       "\n"
+       "        if alias:\n"
+       "            try:\n"
+       "                meta = self._dict[alias]\n"
+       "            except KeyError:\n"
+       "                msg = f\"Can't find aliased option '{alias}' for deprecated option '{name}'.\"\n"
+       "                self._raise(msg, exc_type=KeyError)\n"
+       "            name = alias\n"
+       "\n"
+       "        return name, meta\n")
+_HD_EARLY = ("        dep_info = meta['deprecation']\n"
+             "        msg = dep_info[0]\n"
+             "        alias = dep_info[1]\n"
+             "        if dep_info[2]:\n"
+             "            warn_deprecation(msg)\n"
+             "            dep_info[2] = False\n"
+             "\n"
+             "        if not alias:\n"
+             "            return name, meta\n"
+             "\n"
+             "        try:\n"
+             "            alias_meta = self._dict[alias]\n"
+             "        except KeyError:\n"
+             "            msg = f\"Can't find aliased option '{alias}' for deprecated option '{name}'.\"\n"
+             "            self._raise(msg, exc_type=KeyError)\n"
+             "\n"
+             "        return alias, alias_meta\n")
+
+selftest(
+    'C27',
+    Twin('twin-temporary-renamed-value-local', OD, _TMP, _TMP_RENAMED),
+    Mutant('renamed-pushes-temp-value', OD, _TMP, _TMP_RENAMED.replace('.append(prev_val)', '.append(tmp_val)'),
+           'C27.temporary'),
+    Mutant('renamed-sets-previous-value', OD, _TMP, _TMP_RENAMED.replace('self[opt_name] = tmp_val', 'self[opt_name] = prev_val'),
+           'C27.temporary'),
+    Mutant('renamed-read-after-set', OD, _TMP,
+           _TMP_RENAMED.replace("                prev_val = self[opt_name]\n", "")
+           .replace("                if opt_name not in", "                self[opt_name] = tmp_val\n                prev_val = self[opt_name]\n                if opt_name not in")
+           .replace("                changed.append(opt_name)\n                self[opt_name] = tmp_val\n", "                changed.append(opt_name)\n"),
+           'C27.temporary'),
+    Mutant('renamed-cleanup-inverted', OD, _TMP, _TMP_RENAMED.replace('if not saved_vals:', 'if saved_vals:'), 'C27.temporary'),
+    Twin('twin-handle-deprecation-early-return', OD, _HD, _HD_EARLY),
+    Mutant('early-return-alias-with-old-entry', OD, _HD, _HD_EARLY.replace('return alias, alias_meta', 'return alias, meta'),
+           'C27.guard'),
+    Mutant('early-return-old-name-with-alias-entry', OD, _HD, _HD_EARLY.replace('return alias, alias_meta', 'return name, alias_meta'),
+           'C27.guard'),
+    Mutant('early-return-looks-up-old-name', OD, _HD, _HD_EARLY.replace('alias_meta = self._dict[alias]', 'alias_meta = self._dict[name]'),
+           'C27.guard'),
+    Mutant('early-return-never-resolves', OD, _HD, _HD_EARLY.replace('return alias, alias_meta', 'return name, meta'),
+           'C27.guard'),
+    Mutant('early-return-swapped-pair', OD, _HD, _HD_EARLY.replace('return alias, alias_meta', 'return alias_meta, alias'),
+           'C27.guard'),
 )
